@@ -8,6 +8,7 @@ package main
 import (
 	"encoding/json"
 	"io/ioutil"
+	"math"
 	"strings"
 
 	"verifharness/pkg/vh"
@@ -123,8 +124,8 @@ func variant(r *vh.Rng, seed Case) Case {
 	c := cloneCase(seed)
 	c.Origin = "search"
 	for k := 1 + r.Intn(3); k > 0; k-- {
-		ref, _ := refSort(&c, c.Args, refFilter(&c, c.Args))
-		switch r.Intn(12) {
+		ref, _ := refList(&c, c.Args)
+		switch r.Intn(15) {
 		case 0:
 			c.Args.After = moveCursor(r, ref, c.Args.After)
 		case 1:
@@ -166,7 +167,10 @@ func variant(r *vh.Rng, seed Case) Case {
 		case 4: // ties: copy one element's sort values onto another
 			if len(c.Items) > 1 {
 				i, j := r.Intn(len(c.Items)), r.Intn(len(c.Items))
-				c.Items[i].N, c.Items[i].S = c.Items[j].N, c.Items[j].S
+				c.Items[i].N, c.Items[i].S, c.Items[i].U, c.Items[i].F = c.Items[j].N, c.Items[j].S, c.Items[j].U, c.Items[j].F
+				if c.Items[i].F == 0 && r.Chance(50) {
+					c.Items[i].F = math.Copysign(0, -1) // -0 ties with +0
+				}
 				if r.Chance(50) { // same value up to case
 					c.Items[i].S = strings.ToUpper(c.Items[j].S)
 				}
@@ -177,6 +181,8 @@ func variant(r *vh.Rng, seed Case) Case {
 				if c.Field != "bareI" {
 					c.Args.SortBy = pstr(r.Pick(sortAttrs) + "_" + r.Pick(impls))
 				}
+			case r.Chance(25): // another attribute (kind of sort value)
+				c.Args.SortBy = pstr(r.Pick(sortAttrs) + "_" + r.Pick(impls))
 			case r.Chance(50):
 				c.Args.SortBy = pstr(otherImpl(r, *c.Args.SortBy))
 			case c.Args.SortOrder != nil && *c.Args.SortOrder == "desc":
@@ -224,6 +230,60 @@ func variant(r *vh.Rng, seed Case) Case {
 				it.Key = freshKey(r, &c)
 				i := r.Intn(len(c.Items) + 1)
 				c.Items = append(c.Items[:i], append([]Item{it}, c.Items[i:]...)...)
+			}
+		case 11: // filterType: add / drop / another custom function / an unregistered name
+			switch {
+			case c.Args.FilterType != nil && r.Chance(40):
+				c.Args.FilterType = nil
+			case r.Chance(85):
+				c.Args.FilterType = pstr(r.Pick(customNames))
+			default:
+				c.Args.FilterType = pstr("nope")
+			}
+			if c.Args.FilterText == nil {
+				c.Args.FilterText = pstr(r.Pick(prefixTexts))
+			}
+		case 12: // externally managed: flip what the resolver says / asks for, or the fallback switch
+			if c.Ext != nil {
+				x := *c.Ext
+				switch r.Intn(6) {
+				case 0:
+					x.ApplyTextFilter = !x.ApplyTextFilter
+				case 1:
+					x.SetPageInfo = !x.SetPageInfo
+				case 2:
+					x.HasNext = !x.HasNext
+				case 3:
+					x.HasPrev = !x.HasPrev
+				case 4:
+					if x.Total == nil {
+						x.Total = p64(int64(r.Intn(50)))
+					} else {
+						x.Total = nil
+					}
+				default:
+					if c.Field == "dualI" {
+						c.Fallback = !c.Fallback
+					}
+				}
+				c.Ext = &x
+				if externallyManaged(&c) && c.Kind != "page" {
+					c.Kind = "page"
+				}
+			}
+		case 13: // the same query against another kind of field
+			switch c.Field {
+			case "itemsI":
+				c.Field = r.Pick([]string{"itemsP", "dualI", "extI"})
+			case "itemsP", "extI", "dualI":
+				c.Field = r.Pick([]string{"itemsI", "dualI"})
+			}
+			if (c.Field == "extI" || c.Field == "dualI") && c.Ext == nil {
+				c.Ext = &ExtInfo{Total: p64(int64(len(c.Items))), ApplyTextFilter: true, SetPageInfo: r.Bool()}
+				c.Fallback = c.Field == "dualI" && r.Bool()
+			}
+			if externallyManaged(&c) && c.Kind != "page" {
+				c.Kind = "page"
 			}
 		default: // text attribute edit: copy the filter text's first token into an element, in another case
 			if len(c.Items) > 0 && c.Args.FilterText != nil {
